@@ -15,6 +15,7 @@ import (
 	"encoding/json"
 	"fmt"
 	"os"
+	"runtime"
 	"sort"
 	"strconv"
 	"strings"
@@ -769,6 +770,9 @@ func c18Replay(task engine.SeqTask) (res engine.SeqResult) {
 			if pn != "" {
 				c.chk.Fail("C18:run-panics", "the job run with a failing sink panicked: "+pn)
 			}
+			if g := c18LeftBehind(); g != "" {
+				c.chk.Fail("C18:run-leaves-query-goroutine", "the run has ended (its sink refused a call) but a goroutine of the multi source is still there; it goes on querying the store, also after the hub was stopped (which terminates the process): "+g)
+			}
 			if rec.calls < op.F {
 				// the sink was not called that often: the failure was not injected, this is a plain run
 				res.Skip, res.Key = true, "skip"
@@ -858,6 +862,30 @@ func c18Replay(task engine.SeqTask) (res engine.SeqResult) {
 			return
 		}
 	}
+	// what the job has not processed yet when the history ends (before the judged catch-up, which is not part of the
+	// history): a history that ends caught up and one that ends with pending changes have different futures, although
+	// the store holds the same
+	hidden := ""
+	if toks, _, err := c.decodeTokens(); err == nil {
+		for _, ds := range p.Shape.datasets() {
+			t, has := toks[ds]
+			d := c.jw.W.Dsm.GetDataset(h.DsName(ds))
+			if d == nil {
+				continue
+			}
+			end := uint64(0)
+			if pos := h.ChangePositions(d); len(pos) > 0 {
+				end = pos[len(pos)-1] + 1
+			}
+			// the job's stored token of the dataset, as the number of changes it is behind
+			if has {
+				hidden += fmt.Sprintf("|%s:behind=%d", ds, int64(end)-int64(t))
+			} else {
+				hidden += fmt.Sprintf("|%s:no-token", ds)
+			}
+		}
+	}
+	hidden += fmt.Sprintf("|single-run-since-fixpoint=%v|undelivered=%d", c.lastRunCommit >= 0, len(c.pending))
 	// every history ends with a catch-up, which is the one that is judged
 	if len(task.Hist) > 0 {
 		var lastOp c18Op
@@ -880,7 +908,7 @@ func c18Replay(task engine.SeqTask) (res engine.SeqResult) {
 	for _, ds := range p.Shape.datasets() {
 		ids = append(ids, c18IDs(ds)...)
 	}
-	res.Key = h.Canon(ids, p.Shape.datasets(), "")
+	res.Key = h.Canon(ids, p.Shape.datasets(), hidden)
 	if n := len(task.Hist); n > 0 {
 		var lo c18Op
 		_ = json.Unmarshal(task.Hist[n-1], &lo)
@@ -928,7 +956,7 @@ func init() {
 		}
 	})
 	engine.RegisterCheck("C18", func(r *engine.Run) {
-		r.Rule = "SEQ: for every join shape (2 one-hop, 4 two-hop and 8 three-hop direction patterns, a path through the main dataset in the middle, and two declared dependencies sharing a link dataset; declared in JSON and parsed by the real scheduler) and every batch size in the stated set (and, for shapes with an outgoing first hop of at most two hops, also with the source declared LatestOnly): every history up to the stated depth over {7 entity variants per dataset: property change, link to target 1/2/both/none, delete, second entity; run to fixpoint with batch size 1/2, one run whose sink rejects its 1st/2nd call, one run during which a dependency entity is rewired or changed while the sink handles its first call, a hub restart (the job object is otherwise kept from run to run)} starting from a populated graph on which the job has caught up (also from a graph without a single link whose join predicates nobody in the hub has used before, and with one dependency write - property change or rewiring - landing while that first catch-up is between its pages: the entity it requires must be emitted AFTER the write); every history ends with a run-to-fixpoint (the job is run until its token stops changing) whose emitted entities (recording double around the real DevNullSink) must contain every main entity that changed, every main entity connected now through the join path to a dependency or link entity changed since the previous fixpoint, and - for a first outgoing hop - connected as of the previous fixpoint; emitted entities must be versions of main-dataset entities with the latest version among them; tokens never go back nor beyond the end. distinct = distinct canonical end states"
+		r.Rule = "SEQ: for every join shape (2 one-hop, 4 two-hop and 8 three-hop direction patterns, a path through the main dataset in the middle, and two declared dependencies sharing a link dataset; declared in JSON and parsed by the real scheduler) and every batch size in the stated set (and, for shapes with an outgoing first hop of at most two hops, also with the source declared LatestOnly): every history up to the stated depth over {7 entity variants per dataset: property change, link to target 1/2/both/none, delete, second entity; run to fixpoint with batch size 1/2, one run whose sink rejects its 1st/2nd call, one run during which a dependency entity is rewired or changed while the sink handles its first call, a hub restart (the job object is otherwise kept from run to run)} starting from a populated graph on which the job has caught up (also from a graph without a single link whose join predicates nobody in the hub has used before; for shapes in which one dataset holds several join predicates also entity variants with only one of them set; and with one dependency write - property change or rewiring - landing while that first catch-up is between its pages: the entity it requires must be emitted AFTER the write); every history ends with a run-to-fixpoint (the job is run until its token stops changing) whose emitted entities (recording double around the real DevNullSink) must contain every main entity that changed, every main entity connected now through the join path to a dependency or link entity changed since the previous fixpoint, and - for a first outgoing hop - connected as of the previous fixpoint; emitted entities must be versions of main-dataset entities with the latest version among them; tokens never go back nor beyond the end. distinct = distinct canonical end states"
 		r.Assumptions = []string{"entity ids are distinct per dataset (an id living in two datasets of the chain is outside)", "apart from the one dependency write injected between two pages of the first catch-up, no write happens while the job runs: the graph as it stands when the job runs is the model's current graph", "track_queries (JavaScript) registration is not exercised, only declared dependencies"}
 		shapes := c18Shapes()
 		type cfg struct {
@@ -976,6 +1004,43 @@ func init() {
 				alpha = append(alpha, ob)
 			}
 			engine.RunSeq(r, engine.SeqSpec{Name: fmt.Sprintf("c18-%s-unused-predicates", s.Name), WorkerArgs: []string{"worker", "c18"}, Alphabet: alpha, Params: params, Depth: depth, Budget: budget})
+		}
+		// a dataset that holds several join predicates (two declared paths from one dependency dataset): entity 1 with
+		// only ONE of them set, to target 1 / target 2 - a link that exists on one path only
+		for _, s := range shapes {
+			var alpha []json.RawMessage
+			for _, ds := range s.datasets() {
+				holds := s.holds(ds)
+				if len(holds) < 2 {
+					continue
+				}
+				var preds []string
+				for p := range holds {
+					preds = append(preds, p)
+				}
+				sort.Strings(preds)
+				all := map[string][]string{}
+				for _, p := range preds {
+					all[p] = []string{c18IDs(holds[p])[0]}
+					for t := 0; t < 2; t++ {
+						ob, _ := json.Marshal(c18Op{K: "w", DS: ds, ID: c18IDs(ds)[0], V: 1, Refs: map[string][]string{p: {c18IDs(holds[p])[t]}}})
+						alpha = append(alpha, ob)
+					}
+				}
+				ob, _ := json.Marshal(c18Op{K: "w", DS: ds, ID: c18IDs(ds)[0], V: 1, Refs: all})
+				alpha = append(alpha, ob)
+			}
+			if len(alpha) == 0 {
+				continue
+			}
+			ob, _ := json.Marshal(c18Op{K: "run", N: 1})
+			alpha = append(alpha, ob)
+			depth, budget := 3, 40*time.Second
+			if !r.Quick() {
+				depth, budget = 5, 20*time.Minute
+			}
+			params, _ := json.Marshal(c18Params{Shape: s, Batch: 1})
+			engine.RunSeq(r, engine.SeqSpec{Name: fmt.Sprintf("c18-%s-one-path-only", s.Name), WorkerArgs: []string{"worker", "c18"}, Alphabet: alpha, Params: params, Depth: depth, Budget: budget})
 		}
 		// a dependency write that lands while the first catch-up (the fullsync) is between two pages
 		for _, s := range shapes {
@@ -1028,4 +1093,19 @@ func init() {
 			}
 		}
 	})
+}
+
+// c18LeftBehind: a goroutine started by MultiSource.processDependency that exists although no run is under way.
+func c18LeftBehind() string {
+	buf := make([]byte, 1<<20)
+	n := runtime.Stack(buf, true)
+	for _, g := range strings.Split(string(buf[:n]), "\n\n") {
+		if strings.Contains(g, "MultiSource).processDependency") {
+			if len(g) > 600 {
+				g = g[:600]
+			}
+			return g
+		}
+	}
+	return ""
 }
